@@ -347,14 +347,14 @@ impl<T, N: ArrayLength> IntrusiveArrayBuilder<T, N> {
             {
                 let mut __i: usize = 0;
                 while __i < N::usize_() invariant builder.wf(), builder.position == __i, __i <= N::n(), f.log().len() == __i, forall|j: int| 0 <= j < __i ==> (#[trigger] f.log()[j]).0 == j && f.log()[j].1 == builder.built()[j], decreases N::n() - __i, {
-                    let i = __i;
                     let ghost lb = f.log();
                     let ghost bb = builder.built();
+                    let i = __i;
                     proof {
                         assert(builder.wf()) /*OB:generate.unwind@f:C04*/;
                     }
                     let __v = f.call(i);
-                    builder.array.put(i, __v);
+                    builder.array.put(__i, __v);
                     builder.position += 1;
                     __i += 1;
                     proof {
@@ -388,14 +388,14 @@ impl<T, N: ArrayLength> IntrusiveArrayBuilder<T, N> {
             {
                 let mut __i: usize = 0;
                 while __i < N::usize_() invariant builder.wf(), builder.position == __i, __i <= N::n(), f.log().len() == __i, forall|j: int| 0 <= j < __i ==> (#[trigger] f.log()[j]).0 == j && f.log()[j].1 == builder.built()[j], decreases N::n() - __i, {
-                    let i = __i;
                     let ghost lb = f.log();
                     let ghost bb = builder.built();
+                    let i = __i;
                     proof {
                         assert(builder.wf()) /*OB:generate_boxed.unwind@f:C04*/;
                     }
                     let __v = f.call(i);
-                    builder.array.put(i, __v);
+                    builder.array.put(__i, __v);
                     builder.position += 1;
                     __i += 1;
                     proof {
